@@ -16,6 +16,7 @@ first (the only order-sensitive behaviour), so both orders of every colliding pa
 
 from __future__ import annotations
 
+import itertools
 import math
 import struct
 
@@ -257,10 +258,12 @@ def menu(family, terms):
 # the documented like-normalisation maps negative(s) -> s and absolute(s) -> s for a real s (absolute of a complex symbol
 # stays: it is real-typed while the symbol is complex).
 
-F3_SYMS = [("x", "float32"), ("z", "complex64"), ("n", "int32"), ("n", "int64"), ("n", "np.int16"), ("n", "np.int64"), ("x", "float64")]
+F3_SYMS = [("x", "float32"), ("z", "complex64"), ("n", "int32"), ("n", "int64"), ("n", "np.int16"), ("n", "np.int64"), ("x", "float64"),
+           ("s", "list[float32, float32]"), ("s", "list[float32, float64]"), ("s", "list[float]")]
 F3_TYPES = ["float32", "np.float32", "float64", "int32", "np.int32", "int64", "np.int64", "np.int16", "complex64"]
 CANON_TYPE = {"float32": "float32", "np.float32": "float32", "float64": "float64", "np.float64": "float64", "int32": "integer32", "np.int32": "integer32", "int64": "integer64", "np.int64": "integer64",
-              "np.int16": "integer16", "complex64": "complex64", "float": "float", "complex": "complex"}
+              "np.int16": "integer16", "complex64": "complex64", "float": "float", "complex": "complex",
+              "list[float32, float32]": "list[float32, float32]", "list[float32, float64]": "list[float32, float64]", "list[float]": "list[float]"}
 F3_VALUES = ["f0", "fneg0", "f1", "int1", "np32_0", "np32_neg0", "true", "f2", "c0", "np64_1"]
 F3_CONFIGS = [{}, {"default_constant_type": "float32"}, {"enable_alt": True, "default_constant_type": "float32"}]
 
@@ -276,7 +279,7 @@ def f3_specs(level):
         specs.append(("const", v, ("none",)))
         for t in F3_TYPES:
             specs.append(("const", v, ("type", t)))
-        for n, t in F3_SYMS[:3] + F3_SYMS[6:]:
+        for n, t in F3_SYMS[:3] + F3_SYMS[6:7]:
             for form in ("sym", "absolute", "negative"):
                 specs.append(("const", v, (form, n, t)))
     return specs
@@ -375,6 +378,42 @@ def w_f3(task):
                     add_violation(part, f"false-sharing:{cls}", f"Context({cfg}): {hist[-2]} and {hist[-1]} are the same object but denote {ta} vs {tb}" + (f" (after {P})" if P else ""), case)
                 elif (a is not b) and ta == tb:
                     add_violation(part, f"structurally-identical-but-distinct-objects:{ta[0]}:{'like-less' if ta[0] == 'const' and ta[3][0] == 'auto' else 'typed'}", f"Context({cfg}): {hist[-2]} and {hist[-1]} both denote {ta} but are different objects" + (f" (after {P})" if P else ""), case)
+    # two Python/NumPy literals in ONE operand list (they are converted to constants by the same call)
+    if task["lo"] == 0:
+        LITS = [("f0", 0.0), ("fneg0", -0.0), ("int1", 1), ("f1", 1.0), ("true", True), ("false", False), ("int0", 0), ("f2", 2.0), ("c2", 2 + 0j), ("np32_1", np.float32(1)), ("np64_1", np.float64(1)),
+                ("c0", 0j), ("cneg0", complex(-0.0, 0.0))]
+        for kind in ("list", "select", "add3"):
+            for (na, a), (nb, b) in itertools.product(LITS, repeat=2):
+                part["evaluations"] += 1
+                nstates += 1
+                case = {"kind": "f3-literals", "cfg": task["cfg"], "op": kind, "a": na, "b": nb}
+                try:
+                    with quiet():
+                        ctx = fa.Context(**cfg)
+                        x = ctx.symbol("x", "float32")
+                        if kind == "list":
+                            e = fa.Expr(ctx, "list", (x, a, b))
+                            A, B = e.operands[1], e.operands[2]
+                        elif kind == "select":
+                            e = ctx.select(x < x, a, b)
+                            A, B = e.operands[1], e.operands[2]
+                        else:
+                            e1, e2 = x + a, x + b  # two calls (control: must behave like the one-call forms)
+                            A, B = e1.operands[1], e2.operands[1]
+                except Exception as ex:
+                    bump(part, "f3_literals_not_constructible_" + type(ex).__name__)
+                    continue
+                if not (getattr(A, "kind", None) == "constant" and getattr(B, "kind", None) == "constant"):
+                    bump(part, "f3_literals_not_constants")
+                    continue
+                ta, tb = value_term(a), value_term(b)
+                if ta != tb:
+                    part["nontrivial"] += 1
+                if (A is B) and ta != tb:
+                    cls = "differing-only-in-sign-of-zero" if (ta[0] == tb[0] and _zero_bits(ta[1]) and _zero_bits(tb[1])) else "of-different-value-or-type"
+                    add_violation(part, f"false-sharing:two-literals-in-one-operand-list:{cls}", f"Context({cfg}): {kind} with the literals {a!r} and {b!r}: both operands are the same constant object {A}", case)
+                elif (A is not B) and ta == tb and not (isinstance(a, float) and a != a):
+                    add_violation(part, "structurally-identical-but-distinct-objects:two-literals-in-one-operand-list", f"Context({cfg}): {kind} with the literals {a!r} and {b!r}: distinct constant objects", case)
     part["counters"]["f3_states"] = nstates
     part["samples"].append({"family": "F3", "cfg": str(cfg), "specs": len(specs)})
     return part
@@ -469,6 +508,9 @@ def run(run):
 def replay(case):
     fa = setup_repo_import()
     part = new_part()
+    if case.get("kind") == "f3-literals":
+        p2 = w_f3(dict(level=0, cfg=case["cfg"], lo=0, stride=10 ** 9, perturb=[]))
+        return [(v["sig"], v["msg"]) for v in p2["violations"] if v["case"].get("kind") == "f3-literals" and v["case"]["a"] == case["a"] and v["case"]["b"] == case["b"] and v["case"]["op"] == case["op"]]
     if case.get("kind") == "f3":
         def tup(q):
             return tuple(tup(x) for x in q) if isinstance(q, list) else q
